@@ -189,24 +189,25 @@ Definition P_joinc (j : joinc) := forall c, WT (fun p => render_join c p j).
 Definition P_joins (l : joins) := forall c, WT (fun p => render_joins c p l).
 Definition P_sops (l : sops) := forall c n, WT (fun p => render_sops c n p l).
 Definition P_ctes (l : ctes) := forall c, WT (fun p => render_ctes c p l).
+Definition P_cols (l : cols) := forall c, WT (fun p => render_cols c p l).
 Definition P_query (q : query) := forall c, WT (fun p => render_query c p q).
 Definition P_qflags (f : qflags) := True.
 
-Ltac start := unfold P_term, P_oterm, P_terms, P_cases, P_obys, P_gbys, P_oover, P_rows, P_upds, P_cupds, P_joinc, P_joins, P_sops, P_ctes, P_query, P_qflags in *;
+Ltac start := unfold P_term, P_oterm, P_terms, P_cases, P_obys, P_gbys, P_oover, P_rows, P_upds, P_cupds, P_joinc, P_joins, P_sops, P_ctes, P_cols, P_query, P_qflags in *;
   intros; repeat match goal with H : _ /\ _ |- _ => destruct H end.
 
 Ltac one :=
   match goal with
   | |- WT _ => let H := fresh "HR" in
        unfold WT; intros ? ? ? H;
-       cbn [render render_o render_ts render_cases render_obys render_gbys render_over render_rows render_upds render_cupds render_join render_joins render_sops render_ctes] in H;
+       cbn [render render_o render_ts render_cases render_obys render_gbys render_over render_rows render_upds render_cupds render_join render_joins render_sops render_ctes render_cols] in H;
        try rewrite render_setop_eq in H; unfold setop_render, setop_body in H;
        inv H; inv_all; unwrap_o; cbn [render_o] in *; inv_all; fin
   end.
 
 Theorem thread_all : forall t, P_term t.
 Proof.
-  apply (term_mut P_term P_oterm P_terms P_cases P_obys P_gbys P_oover P_rows P_upds P_cupds P_joinc P_joins P_sops P_ctes P_query P_qflags);
+  apply (term_mut P_term P_oterm P_terms P_cases P_obys P_gbys P_oover P_rows P_upds P_cupds P_joinc P_joins P_sops P_ctes P_cols P_query P_qflags);
     start; try exact I.
   all: try (split; [intro; one | first [exact I | assumption | split; assumption]]).
   all: try (intros; one).
